@@ -1010,7 +1010,9 @@ func (context *layoutContext) makeAllPages(rootBox bo.BlockLevelBoxITF, html *tr
 			resumeAt tree.ResumeStack
 			page     *bo.PageBox
 		)
-		if len(pages) == 0 || remakeState.ContentChanged || remakeState.PagesWanted {
+		// a page that the previous round did not have (i >= len(pages)) has to be made:
+		// the last page may report footnotes to a new one without changing its resume point
+		if i >= len(pages) || remakeState.ContentChanged || remakeState.PagesWanted {
 			logger.ProgressLogger.Printf("Step 5 - Creating layout - Page %d", i+1)
 			// Reset remakeState
 			context.pageMaker[i].RemakeState = tree.RemakeState{}
